@@ -25,7 +25,10 @@ EXPLANATION = (
     "a builder whose index set contains tanks may subscript with the node name only model dictionaries whose own builders cover tanks; "
     "leak_status guards and update triggers; add_leak creates a start control (sim-time eq start_time -> leak_status True) and an end control "
     "(eq end_time -> False) as pre-solve, non-repeating SimTime controls in both sibling implementations; remove_leak undoes everything "
-    "add_leak (and its controls) switched on, including the run-time switch the simulator reads.")
+    "add_leak (and its controls) switched on, including the run-time switch the simulator reads; a refused add_leak (duplicate control name) has "
+    "changed neither the node nor the registry at any point at which it can still be refused (path-ordered tests, stores and registry calls); "
+    "remove_leak, interpreted on a mock model, discards every control that only switches this node's leak whatever name it is registered under "
+    "and keeps every other control.")
 RULE_TEXT = "one instance = one branch formula / breakpoint datum / (builder, dictionary) index-domain pair / control-construction fact"
 ASSUMPTIONS = ["Cd, A > 0", "timing of the start/end controls is the time-control mechanism of C04"]
 
@@ -209,6 +212,9 @@ def prop_models(conds, limit=14):
                 # one atom `X is None` for the four spellings
                 f = build("%s is None" % unparse(x))
                 return (lambda a: f(a)) if isinstance(node.ops[0], (ast.Eq, ast.Is)) else (lambda a: not f(a))
+        if isinstance(node, ast.Compare) and len(node.ops) == 1 and isinstance(node.ops[0], ast.NotIn):
+            f = build("%s in %s" % (unparse(node.left), unparse(node.comparators[0])))      # one atom `x in c` for both spellings
+            return lambda a: not f(a)
         if isinstance(node, ast.Constant) and isinstance(node.value, bool):
             return lambda a, v=node.value: v
         txt = node if isinstance(node, str) else unparse(node)
@@ -257,6 +263,27 @@ class UnrollExec(SymExec):
                 return None
             return [(lambda s0, row=row: tuple(f(s0) for f in row)) for row in zip(*cols)]
         return None
+
+    def branch(self, test, body, orelse, st):
+        """SymExec.branch, and a ('test', text, outcome) event at the place of the path where an undecided test is taken: rules that ask
+        what was already known when a call was made need the order of tests and effects"""
+        t = self.decide(test, st)
+        if t is None:
+            txt, neg = self.cond_text(test, st)
+            known = st.cond(txt)
+            if known is None and self.test_hook:
+                known = self.test_hook(txt, test, st)
+            if known is not None:
+                t = known != neg
+        if t is True:
+            return self.block(body, [st])
+        if t is False:
+            return self.block(orelse, [st])
+        a, b = st, st.fork()
+        for x, val in ((a, not neg), (b, neg)):
+            x.conds.append((txt, val))
+            x.events.append(("test", txt, val, getattr(test, "lineno", 0)))
+        return self.block(body, [a]) + self.block(orelse, [b])
 
     def loop(self, s, st):
         seq = self._known_sequence(s.iter, st)
@@ -466,6 +493,140 @@ def private_attribute_of(repo, attribute):
         for c2, leaf in value_cases(st[-1][2], dict(o.conds)):
             vals.add(leaf)
     return cai, vals
+
+
+# ------------------------------------------------------------------ R-C08-8: a refused add_leak changes nothing
+_REGISTRY_TEXTS = ("wn.control_name_list", "wn._controls", "wn._controls.keys()")
+
+
+def _registry_membership_atom(atom, name_text):
+    """is the test text `<name> in <the model's control registry>` (the registry possibly wrapped in set()/list()/tuple()/frozenset())?"""
+    if not atom.startswith(name_text + " in "):
+        return False
+    box = atom[len(name_text) + 4:].strip()
+    while True:
+        mk = re.match(r"^(?:set|list|tuple|frozenset)\((.*)\)$", box)
+        if not mk:
+            break
+        box = mk.group(1).strip()
+    return box in _REGISTRY_TEXTS
+
+
+def refusal_points(o, addf):
+    """walk one path of add_leak in execution order.  -> [(kind, what, effects made before, guarded)] for every point at which the call can be
+    refused: an explicit raise, and every wn.add_control(name, ..) (the registry raises when the name exists) -- guarded when the tests taken
+    BEFORE the call already force `name in <registry>` to be false.  Effects are stores to attributes of the node and registry changes."""
+    out, effects, tests = [], [], {}
+    for e in o.events:
+        if e[0] == "test":
+            tests[e[1]] = e[2]
+        elif e[0] == "store" and (e[1].startswith("self.") or e[1].startswith("wn.")):
+            effects.append("%s = %s" % (e[1], e[2]))
+        elif e[0] == "raise":
+            out.append(("raise", e[1], list(effects), False))
+        elif e[0] == "call" and e[2][0]:
+            last = e[2][0].split(".")[-1]
+            if last == "add_control" and e[2][0].split(".")[0] == "wn":
+                nm = bind_call(addf, e).get("name")
+                nm = nm.text if isinstance(nm, Opaque) else repr(nm)
+                models = prop_models(tests)
+                atoms = sorted({k for m_ in models for k in m_ if _registry_membership_atom(k, nm)})
+                guarded = bool(models) and bool(atoms) and all(not m_[k] for m_ in models for k in atoms[:1])
+                out.append(("add_control", nm, list(effects), guarded))
+                effects.append("control %s registered" % nm)
+            elif last in ("_discard_control", "remove_control") and e[2][0].split(".")[0] == "wn":
+                effects.append(e[1])
+            elif last == "setattr" and e[2][1] and e[2][1][0] == Opaque("self"):
+                effects.append(e[1])
+    return out
+
+
+# ------------------------------------------------------------------ R-C08-9: remove_leak on a mock model (concrete evaluation, sa/concrete.py)
+class _Mock(object):
+    """attribute bag handed to the interpreted code; reading an attribute it lacks is `could not analyse`"""
+    _sa_mock = True
+
+    def __init__(self, label, **kw):
+        self._label = label
+        self.__dict__.update(kw)
+
+    def __repr__(self):
+        return "<%s>" % self._label
+
+
+def _literal_fields(repo, rel, cname):
+    """`self.<field> = <literal>` of a class's __init__ (fields a method may read; the constructor itself is not under analysis)"""
+    out = {}
+    try:
+        ini = repo.func(rel, cname + ".__init__")
+    except AnchorError:
+        return out
+    for x in walk(ini):
+        if isinstance(x, ast.Assign) and len(x.targets) == 1 and isinstance(x.targets[0], ast.Attribute) and dotted(x.targets[0].value) == "self" \
+                and isinstance(x.value, ast.Constant):
+            out[x.targets[0].attr] = x.value.value
+    return out
+
+
+def remove_leak_on_mock_model(repo, cname):
+    """interpret <cname>.remove_leak(wn) on a model whose control registry holds this node's leak controls under their own names AND under
+    names other code gives them (from_dict: 'control N'; convert_controls_to_rules: '<name>_Rule'), next to controls that are not leak
+    controls of this node.  -> (error text or None, {label: survived?}, node fields afterwards)"""
+    import collections
+    from ..concrete import World, stdlib_overrides, Namespace, Instance, ClassRef, ProgramError
+    ov, _state = stdlib_overrides()
+    ov["six"] = Namespace("six", with_metaclass=lambda meta, *bases: (bases[0] if bases else object), string_types=(str,), integer_types=(int,))
+    world = World(repo, ov)
+
+    def inst(rel, cls, **attrs):
+        c = world.function(rel, cls)
+        if not isinstance(c, ClassRef):
+            raise AnchorError("%s is not a class of %s" % (cls, rel))
+        i = Instance(c)
+        i._attrs.update(attrs)
+        return i
+    kind = cname.lower()
+    registry = collections.OrderedDict()
+    wn = inst(MODEL, "WaterNetworkModel", _controls=registry)
+
+    def node(name):
+        f = dict(_literal_fields(repo, BASE, "Node"))
+        f.update(_literal_fields(repo, ELEM, cname))
+        f.update(_name=name, _leak=True, _leak_status=True, _leak_area=0.01, _leak_discharge_coeff=0.75, _controls=registry,
+                 _leak_start_control_name="%s%sstart_leak_control" % (kind, name), _leak_end_control_name="%s%send_leak_control" % (kind, name))
+        return inst(ELEM, cname, **f)
+    me, other, pipe = node("N1"), node("N2"), _Mock("pipe P1", name="P1")
+
+    def act(target, attribute, value):
+        return inst(CTRL, "ControlAction", _target_obj=target, _attribute=attribute, _value=value, _private_attribute="_" + attribute)
+
+    def ctl(cls, name, then, orelse=()):
+        return inst(CTRL, cls, _then_actions=list(then), _else_actions=list(orelse), _name=name, _condition=_Mock("condition"), _priority=3)
+    start, end = me._attrs["_leak_start_control_name"], me._attrs["_leak_end_control_name"]
+    fixture = [
+        ("start control under its own name", start, ctl("Control", start, [act(me, "leak_status", True)]), False),
+        ("end control under its own name", end, ctl("Control", end, [act(me, "leak_status", False)]), False),
+        ("start control renamed by from_dict", "control 7", ctl("Control", "control 7", [act(me, "leak_status", True)]), False),
+        ("end control renamed by from_dict", "control 8", ctl("Control", "control 8", [act(me, "leak_status", False)]), False),
+        ("start control converted to a rule", start + "_Rule", ctl("Rule", start + "_Rule", [act(me, "leak_status", True)]), False),
+        ("end control converted to a rule", end + "_Rule", ctl("Rule", end + "_Rule", [act(me, "leak_status", False)]), False),
+        ("leak control of another node", "control 9", ctl("Control", "control 9", [act(other, "leak_status", True)]), True),
+        ("rule that also closes a pipe", "shutdown", ctl("Rule", "shutdown", [act(me, "leak_status", False), act(pipe, "status", 0)]), True),
+        ("control of another attribute of this node", "control 10", ctl("Control", "control 10", [act(me, "initial_quality", 0.0)]), True),
+        ("pipe control", "control 11", ctl("Control", "control 11", [act(pipe, "status", 1)]), True),
+    ]
+    for _, name, c, _keep in fixture:
+        registry[name] = c
+    err = None
+    try:
+        world.interp.call(world.interp.getattr_(me, "remove_leak"), [wn], {})
+    except ProgramError as e:
+        if isinstance(e.exc, (AttributeError, NameError)):
+            raise ExtractError("%s.remove_leak needs something the mock model does not provide: %s (line %s)" % (cname, e, e.lineno))
+        err = "%s at line %s" % (e, e.lineno)
+    survived = {label: (name in registry and registry[name] is c) for label, name, c, _keep in fixture}
+    keep = {label: k for label, _, _, k in fixture}
+    return err, survived, keep, {k: me._attrs.get(k) for k in ("_leak", "_leak_status")}
 
 
 def run(repo, chk):
@@ -763,6 +924,54 @@ def run(repo, chk):
     chk.floor("R-C08-4", 2 * 7 + 4)
     chk.floor("R-C08-5", 6)
 
+    # ---------------------------------------------------------------- R-C08-8 a refused add_leak changes nothing (both siblings)
+    # the registry refuses a control name that exists (add_control raises); a second add_leak on a node whose leak is in force must be refused
+    # BEFORE a field of the node or the registry is touched: at every point of every path at which the call can still be refused, nothing has
+    # been changed yet -- or the refusal was excluded by a membership test on that very name taken earlier on the path
+    for cname in ("Junction", "Tank"):
+        af = repo.func(ELEM, "%s.add_leak" % cname)
+        seen8 = set()
+        n_add = 0
+        for o in UnrollExec().run(af):
+            for kind_, what, before, guarded in refusal_points(o, addf):
+                if kind_ == "add_control":
+                    n_add += 1
+                ok_ = guarded or not before
+                key = (kind_, what, ok_, tuple(before) if not ok_ else ())
+                if key in seen8:
+                    continue
+                seen8.add(key)
+                if kind_ == "raise":
+                    chk.expect(ok_, "R-C08-8", "%s.add_leak has changed nothing when it refuses the call itself" % cname, loc(af),
+                               "%s is reached on path %s after the node / the registry was already changed" % (what[:80], o.label()), expected="no effect before the raise", found=before[:4])
+                else:
+                    chk.expect(ok_, "R-C08-8", "%s.add_leak: registering %s cannot be refused once something was changed" % (cname, what), loc(af),
+                               "wn.add_control raises when the name exists; on path %s the name was not tested against the registry first, so a refused second add_leak "
+                               "has already rewritten the leak in force (or registered the other control)" % o.label(),
+                               expected="`%s in wn.control_name_list` excluded before any change, or nothing changed before the call" % what, found=before[:4])
+        if not n_add:
+            raise ExtractError("%s.add_leak: no wn.add_control call found" % cname)
+    chk.floor("R-C08-8", 4)
+
+    # ---------------------------------------------------------------- R-C08-9 remove_leak removes the leak controls whatever they are called
+    # simple-control names are not stored by to_dict (from_dict re-registers them as 'control N'); convert_controls_to_rules re-registers
+    # '<name>_Rule': a control that does nothing but switch THIS node's leak must not survive remove_leak, a control that does anything else must
+    for cname in ("Junction", "Tank"):
+        rf = repo.func(ELEM, "%s.remove_leak" % cname)
+        err, survived, keep, fields = remove_leak_on_mock_model(repo, cname)
+        chk.expect(err is None, "R-C08-9", "%s.remove_leak completes on a model with renamed leak controls" % cname, loc(rf), found=err)
+        if err is not None:
+            continue
+        for label, alive in sorted(survived.items()):
+            if keep[label]:
+                chk.expect(alive, "R-C08-9", "%s.remove_leak keeps the %s" % (cname, label), loc(rf), "only controls that do nothing but switch this node's leak belong to the leak")
+            else:
+                chk.expect(not alive, "R-C08-9", "%s.remove_leak discards the %s" % (cname, label), loc(rf),
+                           "a surviving start control switches the removed leak back on at its start time; registered names are not preserved by from_dict / convert_controls_to_rules",
+                           expected="no control whose actions all target (this node, 'leak_status') is left in the registry", found="still registered")
+        chk.expect(fields.get("_leak") is False and fields.get("_leak_status") is False, "R-C08-9", "%s.remove_leak leaves the node without a leak" % cname, loc(rf), found=fields)
+    chk.floor("R-C08-9", 2 * 11)
+
     # ---------------------------------------------------------------- R-C08-6 reported leak demand
     # the leak row exists only for `leak_status and not _is_isolated` (R-C08-1); wherever it does not exist the reported leak demand must be
     # the constant 0 -- on EVERY path through store_results_in_network (last store wins), not the stale value of the leak-rate variable
@@ -875,8 +1084,8 @@ WITNESSES = [
     dict(name='add-leak-nested-calls-preserving', file=ELEM, old='        if start_time is not None:\n            start_control_action = ControlAction(self, \'leak_status\', True)\n            control = Control._time_control(wn, start_time, \'SIM_TIME\', False, start_control_action)\n            wn.add_control(self._leak_start_control_name, control)\n\n        if end_time is not None:\n            end_control_action = ControlAction(self, \'leak_status\', False)\n            control = Control._time_control(wn, end_time, \'SIM_TIME\', False, end_control_action)\n            wn.add_control(self._leak_end_control_name, control)\n\n    def remove_leak(self,wn):\n        """\n        Remove a leak control', new='        if start_time is not None:\n            wn.add_control(self._leak_start_control_name, Control._time_control(wn, start_time, \'SIM_TIME\', False, ControlAction(self, \'leak_status\', True)))\n\n        if end_time is not None:\n            wn.add_control(self._leak_end_control_name, Control._time_control(wn, end_time, \'SIM_TIME\', False, ControlAction(self, \'leak_status\', False)))\n\n    def remove_leak(self,wn):\n        """\n        Remove a leak control', silent=True),
     dict(name='add-leak-keyword-arguments-preserving', file=ELEM, old='        if start_time is not None:\n            start_control_action = ControlAction(self, \'leak_status\', True)\n            control = Control._time_control(wn, start_time, \'SIM_TIME\', False, start_control_action)\n            wn.add_control(self._leak_start_control_name, control)\n\n        if end_time is not None:\n            end_control_action = ControlAction(self, \'leak_status\', False)\n            control = Control._time_control(wn, end_time, \'SIM_TIME\', False, end_control_action)\n            wn.add_control(self._leak_end_control_name, control)\n\n    def remove_leak(self,wn):\n        """\n        Remove a leak control', new='        if start_time is not None:\n            act = ControlAction(target_obj=self, attribute=\'leak_status\', value=True)\n            control = Control._time_control(wn, start_time, \'SIM_TIME\', daily_flag=False, control_action=act)\n            wn.add_control(self._leak_start_control_name, control)\n\n        if end_time is not None:\n            act = ControlAction(self, \'leak_status\', value=False)\n            control = Control._time_control(wnm=wn, run_at_time=end_time, time_flag=\'SIM_TIME\', daily_flag=False, control_action=act)\n            wn.add_control(name=self._leak_end_control_name, control_object=control)\n\n    def remove_leak(self,wn):\n        """\n        Remove a leak control', silent=True),
     dict(name='add-leak-merged-loop-preserving', file=ELEM, old='        if start_time is not None:\n            start_control_action = ControlAction(self, \'leak_status\', True)\n            control = Control._time_control(wn, start_time, \'SIM_TIME\', False, start_control_action)\n            wn.add_control(self._leak_start_control_name, control)\n\n        if end_time is not None:\n            end_control_action = ControlAction(self, \'leak_status\', False)\n            control = Control._time_control(wn, end_time, \'SIM_TIME\', False, end_control_action)\n            wn.add_control(self._leak_end_control_name, control)\n\n    def remove_leak(self,wn):\n        """\n        Remove a leak control', new='        for when, status, control_name in ((start_time, True, self._leak_start_control_name), (end_time, False, self._leak_end_control_name)):\n            if when is None:\n                continue\n            action = ControlAction(self, \'leak_status\', status)\n            wn.add_control(control_name, Control._time_control(wn, when, \'SIM_TIME\', False, action))\n\n    def remove_leak(self,wn):\n        """\n        Remove a leak control', silent=True),
-    dict(name='remove-leak-loop-and-chained-assignment-preserving', file=ELEM, old='        self._leak = False\n        self._leak_status = False\n        wn._discard_control(self._leak_start_control_name)\n        wn._discard_control(self._leak_end_control_name)\n        \n    def add_fire_fighting_demand', new='        self._leak = self._leak_status = False\n        for control_name in (self._leak_start_control_name, self._leak_end_control_name):\n            wn._discard_control(control_name)\n        \n    def add_fire_fighting_demand', silent=True),
-    dict(name='remove-leak-leaves-status-on', file=ELEM, old='        self._leak = False\n        self._leak_status = False\n        wn._discard_control(self._leak_start_control_name)\n        wn._discard_control(self._leak_end_control_name)\n        \n    def add_fire_fighting_demand', new='        self._leak = False\n        self._leak_status = True\n        wn._discard_control(self._leak_start_control_name)\n        wn._discard_control(self._leak_end_control_name)\n        \n    def add_fire_fighting_demand', rule='R-C08-5'),
+    dict(name='remove-leak-loop-and-chained-assignment-preserving', file=ELEM, old='        wn : :class:`~wntr.network.model.WaterNetworkModel`\n           Water network model\n        """\n        self._leak = False\n        self._leak_status = False\n        wn._discard_control(self._leak_start_control_name)\n        wn._discard_control(self._leak_end_control_name)\n        # the leak controls may have lost', new='        wn : :class:`~wntr.network.model.WaterNetworkModel`\n           Water network model\n        """\n        self._leak = self._leak_status = False\n        for control_name in (self._leak_start_control_name, self._leak_end_control_name):\n            wn._discard_control(control_name)\n        # the leak controls may have lost', silent=True),
+    dict(name='remove-leak-leaves-status-on', file=ELEM, old='        wn : :class:`~wntr.network.model.WaterNetworkModel`\n           Water network model\n        """\n        self._leak = False\n        self._leak_status = False\n        wn._discard_control(self._leak_start_control_name)\n        wn._discard_control(self._leak_end_control_name)\n        # the leak controls may have lost', new='        wn : :class:`~wntr.network.model.WaterNetworkModel`\n           Water network model\n        """\n        self._leak = False\n        self._leak_status = True\n        wn._discard_control(self._leak_start_control_name)\n        wn._discard_control(self._leak_end_control_name)\n        # the leak controls may have lost', rule='R-C08-5'),
     dict(name='time-control-early-returns-positional-preserving', file=CTRL, old='        if time_flag.upper() == \'SIM_TIME\':\n            condition = SimTimeCondition(model=wnm, relation=Comparison.eq, threshold=run_at_time, repeat=daily_flag,\n                                         first_time=0)\n        elif time_flag.upper() == \'CLOCK_TIME\':\n            condition = TimeOfDayCondition(model=wnm, relation=Comparison.eq, threshold=run_at_time, repeat=daily_flag,\n                                           first_day=0)\n        else:\n            raise ValueError("time_flag not recognized; expected either \'sim_time\' or \'clock_time\'")\n\n        control = Control(condition=condition, then_action=control_action)\n\n        return control\n', new='        flag = time_flag.upper()\n        if flag == \'SIM_TIME\':\n            return Control(SimTimeCondition(wnm, Comparison.eq, run_at_time, repeat=daily_flag, first_time=0), control_action)\n        if flag == \'CLOCK_TIME\':\n            return Control(TimeOfDayCondition(wnm, Comparison.eq, run_at_time, repeat=daily_flag, first_day=0), control_action)\n        raise ValueError("time_flag not recognized; expected either \'sim_time\' or \'clock_time\'")\n', silent=True),
     dict(name='time-control-validation-first-preserving', file=CTRL, old='        if time_flag.upper() == \'SIM_TIME\':\n            condition = SimTimeCondition(model=wnm, relation=Comparison.eq, threshold=run_at_time, repeat=daily_flag,\n                                         first_time=0)\n        elif time_flag.upper() == \'CLOCK_TIME\':\n            condition = TimeOfDayCondition(model=wnm, relation=Comparison.eq, threshold=run_at_time, repeat=daily_flag,\n                                           first_day=0)\n        else:\n            raise ValueError("time_flag not recognized; expected either \'sim_time\' or \'clock_time\'")\n\n        control = Control(condition=condition, then_action=control_action)\n\n        return control\n', new='        flag = time_flag.upper()\n        if flag not in (\'SIM_TIME\', \'CLOCK_TIME\'):\n            raise ValueError("time_flag not recognized; expected either \'sim_time\' or \'clock_time\'")\n        if flag == \'CLOCK_TIME\':\n            condition = TimeOfDayCondition(model=wnm, relation=Comparison.eq, threshold=run_at_time, repeat=daily_flag, first_day=0)\n        else:\n            condition = SimTimeCondition(model=wnm, relation=Comparison.eq, threshold=run_at_time, repeat=daily_flag, first_time=0)\n        return Control(condition=condition, then_action=control_action)\n', silent=True),
     dict(name='time-control-at-or-after', file=CTRL, old="condition = SimTimeCondition(model=wnm, relation=Comparison.eq, threshold=run_at_time, repeat=daily_flag,\n                                         first_time=0)\n        elif time_flag.upper() == 'CLOCK_TIME':", new="condition = SimTimeCondition(model=wnm, relation=Comparison.ge, threshold=run_at_time, repeat=daily_flag,\n                                         first_time=0)\n        elif time_flag.upper() == 'CLOCK_TIME':", rule='R-C08-4'),
@@ -898,4 +1107,16 @@ WITNESSES = [
     dict(name='junction-leak-demand-in-second-loop-preserving', file=HYD, old='            if node.leak_status:\n                node._leak_demand = m.leak_rate[name].value\n            else:\n                node._leak_demand = 0\n\n    for name, node in wn.tanks():\n', new='\n    for name, node in wn.junctions():\n        node._leak_demand = m.leak_rate[name].value if (node.leak_status and not node._is_isolated) else 0\n\n    for name, node in wn.tanks():\n', silent=True),
     dict(name='leak-spline-entries-zip-loop-preserving', file=PAR, old='            if node_name in m.leak_poly_coeffs_a:\n                m.leak_poly_coeffs_a[node_name].value = a\n                m.leak_poly_coeffs_b[node_name].value = b\n                m.leak_poly_coeffs_c[node_name].value = c\n                m.leak_poly_coeffs_d[node_name].value = d\n            else:\n                m.leak_poly_coeffs_a[node_name] = aml.Param(a)\n                m.leak_poly_coeffs_b[node_name] = aml.Param(b)\n                m.leak_poly_coeffs_c[node_name] = aml.Param(c)\n                m.leak_poly_coeffs_d[node_name] = aml.Param(d)\n', new='            already_defined = node_name in m.leak_poly_coeffs_a\n            for coeff_dict, coeff in zip((m.leak_poly_coeffs_a, m.leak_poly_coeffs_b, m.leak_poly_coeffs_c, m.leak_poly_coeffs_d), (a, b, c, d)):\n                if already_defined:\n                    coeff_dict[node_name].value = coeff\n                else:\n                    coeff_dict[node_name] = aml.Param(coeff)\n', silent=True),
     dict(name='leak-spline-entries-zip-loop-misaligned', file=PAR, old='            if node_name in m.leak_poly_coeffs_a:\n                m.leak_poly_coeffs_a[node_name].value = a\n                m.leak_poly_coeffs_b[node_name].value = b\n                m.leak_poly_coeffs_c[node_name].value = c\n                m.leak_poly_coeffs_d[node_name].value = d\n            else:\n                m.leak_poly_coeffs_a[node_name] = aml.Param(a)\n                m.leak_poly_coeffs_b[node_name] = aml.Param(b)\n                m.leak_poly_coeffs_c[node_name] = aml.Param(c)\n                m.leak_poly_coeffs_d[node_name] = aml.Param(d)\n', new='            already_defined = node_name in m.leak_poly_coeffs_a\n            for coeff_dict, coeff in zip((m.leak_poly_coeffs_a, m.leak_poly_coeffs_b, m.leak_poly_coeffs_c, m.leak_poly_coeffs_d), (a, b, d, c)):\n                if already_defined:\n                    coeff_dict[node_name].value = coeff\n                else:\n                    coeff_dict[node_name] = aml.Param(coeff)\n', rule='R-C08-1'),
+    # ---- R-C08-8 (a refused add_leak changes nothing) and R-C08-9 (remove_leak finds its controls by what they do): the reverted repairs, equivalent spellings, wrong twins
+    dict(name='add-leak-refusal-check-reverted', file=ELEM, old='        # refuse before anything is changed: a second leak on the same node must not rewrite the one in force\n        for control_name, when in ((self._leak_start_control_name, start_time), (self._leak_end_control_name, end_time)):\n            if when is not None and control_name in wn.control_name_list:\n                raise ValueError(\'Node {} already has a leak control ({}); call remove_leak first\'.format(self.name, control_name))\n\n        self._leak = True\n        self._leak_area = area\n        self._leak_discharge_coeff = discharge_coeff\n\n        if start_time is not None:\n            start_control_action = ControlAction(self, \'leak_status\', True)\n            control = Control._time_control(wn, start_time, \'SIM_TIME\', False, start_control_action)\n            wn.add_control(self._leak_start_control_name, control)\n\n        if end_time is not None:\n            end_control_action = ControlAction(self, \'leak_status\', False)\n            control = Control._time_control(wn, end_time, \'SIM_TIME\', False, end_control_action)\n            wn.add_control(self._leak_end_control_name, control)\n\n    def remove_leak(self,wn):\n        """\n        Remove a leak control', new='        self._leak = True\n        self._leak_area = area\n        self._leak_discharge_coeff = discharge_coeff\n\n        if start_time is not None:\n            start_control_action = ControlAction(self, \'leak_status\', True)\n            control = Control._time_control(wn, start_time, \'SIM_TIME\', False, start_control_action)\n            wn.add_control(self._leak_start_control_name, control)\n\n        if end_time is not None:\n            end_control_action = ControlAction(self, \'leak_status\', False)\n            control = Control._time_control(wn, end_time, \'SIM_TIME\', False, end_control_action)\n            wn.add_control(self._leak_end_control_name, control)\n\n    def remove_leak(self,wn):\n        """\n        Remove a leak control', rule='R-C08-8'),
+    dict(name='add-leak-refusal-explicit-tests-hoisted-registry-preserving', file=ELEM, old='        # refuse before anything is changed: a second leak on the same node must not rewrite the one in force\n        for control_name, when in ((self._leak_start_control_name, start_time), (self._leak_end_control_name, end_time)):\n            if when is not None and control_name in wn.control_name_list:\n                raise ValueError(\'Node {} already has a leak control ({}); call remove_leak first\'.format(self.name, control_name))\n\n        self._leak = True\n        self._leak_area = area\n        self._leak_discharge_coeff = discharge_coeff\n\n        if start_time is not None:\n            start_control_action = ControlAction(self, \'leak_status\', True)\n            control = Control._time_control(wn, start_time, \'SIM_TIME\', False, start_control_action)\n            wn.add_control(self._leak_start_control_name, control)\n\n        if end_time is not None:\n            end_control_action = ControlAction(self, \'leak_status\', False)\n            control = Control._time_control(wn, end_time, \'SIM_TIME\', False, end_control_action)\n            wn.add_control(self._leak_end_control_name, control)\n\n    def remove_leak(self,wn):\n        """\n        Remove a leak control', new='        existing = set(wn.control_name_list)\n        if start_time is not None:\n            if self._leak_start_control_name in existing:\n                raise ValueError(\'Node {} already has a leak control\'.format(self.name))\n        if not (end_time is None or self._leak_end_control_name not in existing):\n            raise ValueError(\'Node {} already has a leak control\'.format(self.name))\n\n        self._leak = True\n        self._leak_area = area\n        self._leak_discharge_coeff = discharge_coeff\n\n        if start_time is not None:\n            start_control_action = ControlAction(self, \'leak_status\', True)\n            control = Control._time_control(wn, start_time, \'SIM_TIME\', False, start_control_action)\n            wn.add_control(self._leak_start_control_name, control)\n\n        if end_time is not None:\n            end_control_action = ControlAction(self, \'leak_status\', False)\n            control = Control._time_control(wn, end_time, \'SIM_TIME\', False, end_control_action)\n            wn.add_control(self._leak_end_control_name, control)\n\n    def remove_leak(self,wn):\n        """\n        Remove a leak control', silent=True),
+    dict(name='add-leak-refusal-controls-first-fields-last-preserving', file=ELEM, old='        # refuse before anything is changed: a second leak on the same node must not rewrite the one in force\n        for control_name, when in ((self._leak_start_control_name, start_time), (self._leak_end_control_name, end_time)):\n            if when is not None and control_name in wn.control_name_list:\n                raise ValueError(\'Node {} already has a leak control ({}); call remove_leak first\'.format(self.name, control_name))\n\n        self._leak = True\n        self._leak_area = area\n        self._leak_discharge_coeff = discharge_coeff\n\n        if start_time is not None:\n            start_control_action = ControlAction(self, \'leak_status\', True)\n            control = Control._time_control(wn, start_time, \'SIM_TIME\', False, start_control_action)\n            wn.add_control(self._leak_start_control_name, control)\n\n        if end_time is not None:\n            end_control_action = ControlAction(self, \'leak_status\', False)\n            control = Control._time_control(wn, end_time, \'SIM_TIME\', False, end_control_action)\n            wn.add_control(self._leak_end_control_name, control)\n\n    def remove_leak(self,wn):\n        """\n        Remove a leak control', new='        # refuse before anything is changed: a second leak on the same node must not rewrite the one in force\n        for control_name, when in ((self._leak_start_control_name, start_time), (self._leak_end_control_name, end_time)):\n            if when is not None and control_name in wn.control_name_list:\n                raise ValueError(\'Node {} already has a leak control ({}); call remove_leak first\'.format(self.name, control_name))\n\n        if start_time is not None:\n            start_control_action = ControlAction(self, \'leak_status\', True)\n            control = Control._time_control(wn, start_time, \'SIM_TIME\', False, start_control_action)\n            wn.add_control(self._leak_start_control_name, control)\n\n        if end_time is not None:\n            end_control_action = ControlAction(self, \'leak_status\', False)\n            control = Control._time_control(wn, end_time, \'SIM_TIME\', False, end_control_action)\n            wn.add_control(self._leak_end_control_name, control)\n\n        self._leak = True\n        self._leak_area = area\n        self._leak_discharge_coeff = discharge_coeff\n\n    def remove_leak(self,wn):\n        """\n        Remove a leak control', silent=True),
+    dict(name='add-leak-refusal-tests-only-the-start-control', file=ELEM, old='        # refuse before anything is changed: a second leak on the same node must not rewrite the one in force\n        for control_name, when in ((self._leak_start_control_name, start_time), (self._leak_end_control_name, end_time)):\n            if when is not None and control_name in wn.control_name_list:\n                raise ValueError(\'Node {} already has a leak control ({}); call remove_leak first\'.format(self.name, control_name))\n\n        self._leak = True\n        self._leak_area = area\n        self._leak_discharge_coeff = discharge_coeff\n\n        if start_time is not None:\n            start_control_action = ControlAction(self, \'leak_status\', True)\n            control = Control._time_control(wn, start_time, \'SIM_TIME\', False, start_control_action)\n            wn.add_control(self._leak_start_control_name, control)\n\n        if end_time is not None:\n            end_control_action = ControlAction(self, \'leak_status\', False)\n            control = Control._time_control(wn, end_time, \'SIM_TIME\', False, end_control_action)\n            wn.add_control(self._leak_end_control_name, control)\n\n    def remove_leak(self,wn):\n        """\n        Remove a leak control', new='        if start_time is not None and self._leak_start_control_name in wn.control_name_list:\n            raise ValueError(\'Node {} already has a leak control\'.format(self.name))\n\n        self._leak = True\n        self._leak_area = area\n        self._leak_discharge_coeff = discharge_coeff\n\n        if start_time is not None:\n            start_control_action = ControlAction(self, \'leak_status\', True)\n            control = Control._time_control(wn, start_time, \'SIM_TIME\', False, start_control_action)\n            wn.add_control(self._leak_start_control_name, control)\n\n        if end_time is not None:\n            end_control_action = ControlAction(self, \'leak_status\', False)\n            control = Control._time_control(wn, end_time, \'SIM_TIME\', False, end_control_action)\n            wn.add_control(self._leak_end_control_name, control)\n\n    def remove_leak(self,wn):\n        """\n        Remove a leak control', rule='R-C08-8'),
+    dict(name='add-leak-refusal-after-the-fields-were-written', file=ELEM, old='        # refuse before anything is changed: a second leak on the same node must not rewrite the one in force\n        for control_name, when in ((self._leak_start_control_name, start_time), (self._leak_end_control_name, end_time)):\n            if when is not None and control_name in wn.control_name_list:\n                raise ValueError(\'Node {} already has a leak control ({}); call remove_leak first\'.format(self.name, control_name))\n\n        self._leak = True\n        self._leak_area = area\n        self._leak_discharge_coeff = discharge_coeff\n\n        if start_time is not None:\n            start_control_action = ControlAction(self, \'leak_status\', True)\n            control = Control._time_control(wn, start_time, \'SIM_TIME\', False, start_control_action)\n            wn.add_control(self._leak_start_control_name, control)\n\n        if end_time is not None:\n            end_control_action = ControlAction(self, \'leak_status\', False)\n            control = Control._time_control(wn, end_time, \'SIM_TIME\', False, end_control_action)\n            wn.add_control(self._leak_end_control_name, control)\n\n    def remove_leak(self,wn):\n        """\n        Remove a leak control', new='        self._leak = True\n        self._leak_area = area\n        self._leak_discharge_coeff = discharge_coeff\n\n        # refuse before anything is changed: a second leak on the same node must not rewrite the one in force\n        for control_name, when in ((self._leak_start_control_name, start_time), (self._leak_end_control_name, end_time)):\n            if when is not None and control_name in wn.control_name_list:\n                raise ValueError(\'Node {} already has a leak control ({}); call remove_leak first\'.format(self.name, control_name))\n\n        if start_time is not None:\n            start_control_action = ControlAction(self, \'leak_status\', True)\n            control = Control._time_control(wn, start_time, \'SIM_TIME\', False, start_control_action)\n            wn.add_control(self._leak_start_control_name, control)\n\n        if end_time is not None:\n            end_control_action = ControlAction(self, \'leak_status\', False)\n            control = Control._time_control(wn, end_time, \'SIM_TIME\', False, end_control_action)\n            wn.add_control(self._leak_end_control_name, control)\n\n    def remove_leak(self,wn):\n        """\n        Remove a leak control', rule='R-C08-8'),
+    dict(name='add-leak-unchecked-controls-first-fields-last', file=ELEM, old='        # refuse before anything is changed: a second leak on the same node must not rewrite the one in force\n        for control_name, when in ((self._leak_start_control_name, start_time), (self._leak_end_control_name, end_time)):\n            if when is not None and control_name in wn.control_name_list:\n                raise ValueError(\'Node {} already has a leak control ({}); call remove_leak first\'.format(self.name, control_name))\n\n        self._leak = True\n        self._leak_area = area\n        self._leak_discharge_coeff = discharge_coeff\n\n        if start_time is not None:\n            start_control_action = ControlAction(self, \'leak_status\', True)\n            control = Control._time_control(wn, start_time, \'SIM_TIME\', False, start_control_action)\n            wn.add_control(self._leak_start_control_name, control)\n\n        if end_time is not None:\n            end_control_action = ControlAction(self, \'leak_status\', False)\n            control = Control._time_control(wn, end_time, \'SIM_TIME\', False, end_control_action)\n            wn.add_control(self._leak_end_control_name, control)\n\n    def remove_leak(self,wn):\n        """\n        Remove a leak control', new='        if start_time is not None:\n            start_control_action = ControlAction(self, \'leak_status\', True)\n            control = Control._time_control(wn, start_time, \'SIM_TIME\', False, start_control_action)\n            wn.add_control(self._leak_start_control_name, control)\n\n        if end_time is not None:\n            end_control_action = ControlAction(self, \'leak_status\', False)\n            control = Control._time_control(wn, end_time, \'SIM_TIME\', False, end_control_action)\n            wn.add_control(self._leak_end_control_name, control)\n\n        self._leak = True\n        self._leak_area = area\n        self._leak_discharge_coeff = discharge_coeff\n\n    def remove_leak(self,wn):\n        """\n        Remove a leak control', rule='R-C08-8'),
+    dict(name='remove-leak-by-target-reverted', file=ELEM, old="        # the leak controls may have lost their names (from_dict, convert_controls_to_rules): discard every control\n        # that does nothing but switch this node's leak on or off\n        for control_name, control in list(wn.controls()):\n            targets = [action.target() for action in control.actions()]\n            if targets and all(obj is self and attr == 'leak_status' for obj, attr in targets):\n                wn._discard_control(control_name)\n        \n    def add_fire_fighting_demand", new='        \n    def add_fire_fighting_demand', rule='R-C08-9'),
+    dict(name='remove-leak-by-target-through-names-and-get-control-preserving', file=ELEM, old="        # the leak controls may have lost their names (from_dict, convert_controls_to_rules): discard every control\n        # that does nothing but switch this node's leak on or off\n        for control_name, control in list(wn.controls()):\n            targets = [action.target() for action in control.actions()]\n            if targets and all(obj is self and attr == 'leak_status' for obj, attr in targets):\n                wn._discard_control(control_name)\n        \n    def add_fire_fighting_demand", new="        for control_name in wn.control_name_list:\n            actions = wn.get_control(control_name).actions()\n            foreign = [a for a in actions if a.target() != (self, 'leak_status')]\n            if len(actions) > 0 and not foreign:\n                wn.remove_control(control_name)\n        \n    def add_fire_fighting_demand", silent=True),
+    dict(name='remove-leak-discards-controls-that-also-do-other-things', file=ELEM, old="        # the leak controls may have lost their names (from_dict, convert_controls_to_rules): discard every control\n        # that does nothing but switch this node's leak on or off\n        for control_name, control in list(wn.controls()):\n            targets = [action.target() for action in control.actions()]\n            if targets and all(obj is self and attr == 'leak_status' for obj, attr in targets):\n                wn._discard_control(control_name)\n        \n    def add_fire_fighting_demand", new="        # the leak controls may have lost their names (from_dict, convert_controls_to_rules): discard every control\n        # that does nothing but switch this node's leak on or off\n        for control_name, control in list(wn.controls()):\n            targets = [action.target() for action in control.actions()]\n            if any(obj is self and attr == 'leak_status' for obj, attr in targets):\n                wn._discard_control(control_name)\n        \n    def add_fire_fighting_demand", rule='R-C08-9'),
+    dict(name='remove-leak-discards-leak-controls-of-other-nodes', file=ELEM, old="        # the leak controls may have lost their names (from_dict, convert_controls_to_rules): discard every control\n        # that does nothing but switch this node's leak on or off\n        for control_name, control in list(wn.controls()):\n            targets = [action.target() for action in control.actions()]\n            if targets and all(obj is self and attr == 'leak_status' for obj, attr in targets):\n                wn._discard_control(control_name)\n        \n    def add_fire_fighting_demand", new="        # the leak controls may have lost their names (from_dict, convert_controls_to_rules): discard every control\n        # that does nothing but switch this node's leak on or off\n        for control_name, control in list(wn.controls()):\n            targets = [action.target() for action in control.actions()]\n            if targets and all(attr == 'leak_status' for obj, attr in targets):\n                wn._discard_control(control_name)\n        \n    def add_fire_fighting_demand", rule='R-C08-9'),
+    dict(name='add-leak-controls-by-module-helper-with-schedule-table-preserving', file=ELEM, old='        if start_time is not None:\n            start_control_action = ControlAction(self, \'leak_status\', True)\n            control = Control._time_control(wn, start_time, \'SIM_TIME\', False, start_control_action)\n            wn.add_control(self._leak_start_control_name, control)\n\n        if end_time is not None:\n            end_control_action = ControlAction(self, \'leak_status\', False)\n            control = Control._time_control(wn, end_time, \'SIM_TIME\', False, end_control_action)\n            wn.add_control(self._leak_end_control_name, control)\n\n    def remove_leak(self,wn):\n        """\n        Remove a leak control', new='        _add_leak_time_controls(self, wn, start_time, end_time)\n\n    def remove_leak(self,wn):\n        """\n        Remove a leak control', also=[('class Junction(Node):\n', "def _add_leak_time_controls(node, wn, start_time, end_time):\n    from wntr.network.controls import ControlAction, Control\n    schedule = ((start_time, True, node._leak_start_control_name),\n                (end_time, False, node._leak_end_control_name))\n    for switch_time, leak_status, control_name in schedule:\n        if switch_time is None:\n            continue\n        control_action = ControlAction(node, 'leak_status', leak_status)\n        control = Control._time_control(wn, switch_time, 'SIM_TIME', False, control_action)\n        wn.add_control(control_name, control)\n\n\nclass Junction(Node):\n")], silent=True),
 ]
